@@ -61,6 +61,10 @@ class FallbackMonitor(Monitor):
             for o in pre.others:
                 sil[(nid, o)] = round(sil.get((nid, o), 0.0) + dt, 6)
             heard = 1 + sum(1 for o in pre.others if sil[(nid, o)] <= cfg.fallback)
+            if heard * 2 <= len(pre.others) + 1 and not post.leader_flag and post.leader == nid:
+                raise core.Violation('C20 %s has left the leader state but still names itself as the leader (getStatus leader) although it heard from only '
+                                     '%d of %d voters within the fallback timeout %.3f (%r)' % (nid, heard, len(pre.others) + 1, cfg.fallback, ev),
+                                     sig='names-itself-leader')
             if heard * 2 <= len(pre.others) + 1 and post.leader_flag:
                 raise core.Violation('C20 %s still reports itself leader after a tick although it heard from only %d of %d voters '
                                      'within the fallback timeout %.3f (silence %r) (%r)' % (
